@@ -196,6 +196,7 @@ impl TraitHandler for PartialEqEnumHandler {
 
         token_stream.extend(quote! {
             impl #impl_generics ::core::cmp::PartialEq for #ident #ty_generics #where_clause {
+                #[allow(non_snake_case)] // the bindings are named after the fields, with a prefix
                 #[inline]
                 fn eq(&self, other: &Self) -> bool {
                     #eq_token_stream
